@@ -3,7 +3,7 @@
    definition of Core/Arith.v (Core/ArithMore.v) on the whole range of its Go argument types
    (where the domain is smaller this is stated as a hypothesis and listed in docs/gotrans.md).
    A change of the Go arithmetic that changes a function's value makes this file fail to compile. *)
-From Coq Require Import ZArith Lia Bool ZifyBool.
+From Coq Require Import ZArith Lia Bool ZifyBool Btauto.
 From CV Require Import Base.GoSem Base.Bits Core.Arith Core.ArithMore Gen.GoArith.
 Open Scope Z_scope.
 Ltac Zify.zify_post_hook ::= Z.div_mod_to_equations.
@@ -31,18 +31,33 @@ Ltac split_ifs :=
   repeat match goal with
          | |- context [if ?c then _ else _] => let E := fresh "E" in destruct c eqn:E
          end.
+(* [lor_ac]: equal up to associativity / commutativity of bitwise OR (operand order in the Go
+   source is irrelevant), by extensionality on bits *)
+Ltac lor_ac :=
+  first [ reflexivity
+        | (unwrap; apply Z.bits_inj'; let n := fresh "n" in let Hn := fresh "Hn" in intros n Hn;
+           rewrite ?Z.lor_spec; btauto) ].
 Ltac fin := first [reflexivity | lia | (f_equal; lia) | (repeat f_equal; lia)].
 
 (* ------------------------------------------------------------------ address.go *)
+
+(* [s64_noop]: every signed 64-bit wrap in the goal whose argument is provably in range is the
+   identity.  Innermost first (an argument that still contains a wrap is skipped), so the proofs
+   do not depend on the order of operands or on the names of Go locals. *)
+Lemma wrap_s64_id : forall z, -9223372036854775808 <= z < 9223372036854775808 -> wrap_s64 z = z.
+Proof. intros z H. unfold wrap_s64. cbv zeta. destruct (_ <? _) eqn:E; lia. Qed.
+Ltac no_wrap_in e := lazymatch e with context [wrap_s64 _] => fail | _ => idtac end.
+Ltac s64_noop :=
+  repeat match goal with
+         | |- context [wrap_s64 ?e] => no_wrap_in e; rewrite (wrap_s64_id e) by nia
+         end.
+Ltac ok_pair_fin := cbv zeta; split_ifs; try lia; [reflexivity | f_equal; unwrap; lia].
 
 Theorem go_addSize_agrees : forall a sz, in_u32 a -> in_u32 sz ->
   go_addSize a sz = ok_pair 4294967295 (addSize a sz).
 Proof.
   intros a sz Ha Hsz. unranges. unfold go_addSize, addSize, ok_pair, maxSegmentSize.
-  assert (Hx : wrap_s64 (a + sz) = a + sz) by (unwrap; split_ifs; lia).
-  rewrite Hx. cbv zeta. split_ifs; try lia.
-  - reflexivity.
-  - f_equal. unwrap. lia.
+  s64_noop. replace (sz + a) with (a + sz) by lia. ok_pair_fin.
 Qed.
 
 Theorem go_addSizeUnchecked_agrees : forall a sz, go_addSizeUnchecked a sz = addSizeUnchecked a sz.
@@ -53,12 +68,9 @@ Theorem go_element_agrees : forall a i sz, in_u32 a -> in_s32 i -> in_u32 sz ->
 Proof.
   intros a i sz Ha Hi Hsz. unranges. unfold go_element, element, ok_pair, maxSegmentSize.
   assert (Hm : -9223372034707292160 <= i * sz <= 9223372030412324865) by nia.
-  assert (Hy : wrap_s64 (i * sz) = i * sz) by (unwrap; split_ifs; lia).
-  rewrite Hy.
-  assert (Hx : wrap_s64 (a + i * sz) = a + i * sz) by (unwrap; split_ifs; lia).
-  rewrite Hx. cbv zeta. split_ifs; try lia.
-  - reflexivity.
-  - f_equal. unwrap. lia.
+  assert (Hm' : sz * i = i * sz) by lia.
+  rewrite ?Hm'. s64_noop. rewrite ?Hm'. s64_noop.
+  replace (i * sz + a) with (a + i * sz) by lia. ok_pair_fin.
 Qed.
 
 Theorem go_addOffset_agrees : forall a o, go_addOffset a o = addOffset a o.
@@ -69,10 +81,8 @@ Theorem go_times_agrees : forall sz n, in_u32 sz -> in_s32 n ->
 Proof.
   intros sz n Hsz Hn. unranges. unfold go_times, times, ok_pair, maxSegmentSize.
   assert (Hm : -9223372036854775808 <= sz * n < 9223372036854775808) by nia.
-  assert (Hx : wrap_s64 (sz * n) = sz * n) by (unwrap; split_ifs; lia).
-  rewrite Hx. cbv zeta. split_ifs; try lia.
-  - reflexivity.
-  - f_equal. unwrap. lia.
+  assert (Hm' : n * sz = sz * n) by lia.
+  rewrite ?Hm'. s64_noop. ok_pair_fin.
 Qed.
 
 Theorem go_timesUnchecked_agrees : forall sz n, go_timesUnchecked sz n = timesUnchecked sz n.
@@ -167,7 +177,7 @@ Proof.
   { unfold dataWordCount in E. destruct Hs as [Hs _]. unranges.
     destruct (DataSize sz mod 8 =? 0); [|discriminate]. injection E as <-. lia. }
   assert (Hsd : s32 d = d) by (unwrap; split_ifs; lia).
-  rewrite Hsd. reflexivity.
+  rewrite Hsd. lor_ac.
 Qed.
 
 Theorem go_rawListPointer_agrees : forall off lt len, in_s32 off -> in_s64 lt -> in_s32 len ->
@@ -175,25 +185,25 @@ Theorem go_rawListPointer_agrees : forall off lt len, in_s32 off -> in_s64 lt ->
 Proof.
   intros off lt len Ho Hl Hn. unfold go_rawListPointer, rawListPointer, listPointer.
   assert (H : wrap_u64 (wrap_u64 lt * 4294967296) = u64 (lt * 4294967296)) by (unwrap; lia).
-  rewrite H. reflexivity.
+  rewrite H. lor_ac.
 Qed.
 
 Theorem go_rawInterfacePointer_agrees : forall cap, go_rawInterfacePointer cap = rawInterfacePointer cap.
-Proof. reflexivity. Qed.
+Proof. lor_ac. Qed.
 
 Theorem go_rawFarPointer_agrees : forall seg off, go_rawFarPointer seg off = rawFarPointer seg off.
-Proof. intros. unfold go_rawFarPointer, rawFarPointer, farPointer. bits. reflexivity. Qed.
+Proof. intros. unfold go_rawFarPointer, rawFarPointer, farPointer. bits. lor_ac. Qed.
 
 Theorem go_rawDoubleFarPointer_agrees : forall seg off,
   go_rawDoubleFarPointer seg off = rawDoubleFarPointer seg off.
-Proof. intros. unfold go_rawDoubleFarPointer, rawDoubleFarPointer, doubleFarPointer. bits. reflexivity. Qed.
+Proof. intros. unfold go_rawDoubleFarPointer, rawDoubleFarPointer, doubleFarPointer. bits. lor_ac. Qed.
 
 Theorem go_pointerType_agrees : forall p, in_u64 p -> go_pointerType p = pointerType p.
 Proof.
   intros p Hp. unranges. unfold go_pointerType, pointerType. bits.
   assert (H3 : wrap_s64 (p mod 4) = p mod 4) by (unwrap; split_ifs; lia).
   assert (H7 : wrap_s64 (p mod 8) = p mod 8) by (unwrap; split_ifs; lia).
-  rewrite H3, H7. reflexivity.
+  rewrite H3, H7. first [reflexivity | (split_ifs; lia)].
 Qed.
 
 Theorem go_structSize_agrees : forall p, go_structSize p = structSize p.
